@@ -24,6 +24,7 @@ type Config struct {
 	StickNum   int    `json:"stick_num"`
 	StickDen   int    `json:"stick_den"`
 	Readers    int    `json:"readers,omitempty"`
+	PostYield  bool   `json:"post_yield,omitempty"`  // a yield point also AFTER each ReadAt returns: other tasks may run between a read's completion and the caller's use of the bytes
 	DefaultLog bool   `json:"default_log,omitempty"` // Open without WithLogger: the WAL falls back to hclog.Default() (set to a null logger by the harness)
 	StableTask bool   `json:"stable_task,omitempty"` // concurrent flow: a task issuing Set/Get beside the writer and the readers
 	Strict     bool   `json:"strict"`                // observe and compare after every mutating op
